@@ -535,3 +535,32 @@ PROPS["C34"] = dict(
     uncovered=["whole-file / data-set writers (FileDicomObject::write_*, DataSetWriter)", "deflate adapter", "data set readers, file readers",
                "PDU send/receive in associations"],
 )
+
+# ----------------------------------------------------------------------- C05
+_C05 = ["c05::c05_" + n for n in ["explicit_le_n5", "explicit_le_n7", "explicit_le_n8", "explicit_le_n11", "explicit_be_n5", "explicit_be_n8",
+                                  "explicit_be_n11", "implicit_le_n7", "adaptive_le_n5", "adaptive_le_n7", "adaptive_le_n11"]]
+PROPS["C05"] = dict(
+    level="proof",
+    units=[
+        K("C05.headers_short_input", "ext", _C05,
+          "decode_header and decode_item_header of the explicit LE/BE, implicit LE and adaptive decoders on EVERY input of 5, 7, 8 and 11 "
+          "bytes: a value or an error, never a panic, never more bytes claimed than available (12-byte inputs: C03.dec_header / C08)",
+          timeout=600),
+        K("C05.tag_text", "ext", ["c14::c14_tag_from_str_len8", "c14::c14_tag_from_str_len11"],
+          "Tag::from_str on every valid UTF-8 string of 8 and 11 bytes never panics (shared with C14)", timeout=900),
+        V("C05.date_time_text", "c12_parse_partial.vrs",
+          "parse_date_partial / parse_time_partial on ANY byte string: all slice indices in bounds, no accumulator overflow (shared with C12)",
+          expected_verified=11),
+        V("C05.read_pdu_head", "c25_read_pdu_head.vrs",
+          "read_pdu framing head on ANY buffer: bytes::Buf accessors never called beyond the bytes available (shared with C25)",
+          expected_verified=6),
+        V("C05.value_readers", "c07_stateful_decoder.vrs",
+          "StatefulDecoder value readers: no arithmetic overflow / out-of-range cast for any declared length (shared with C07)",
+          expected_verified=49),
+    ],
+    assumptions=["panic-freedom (index, slice, overflow, unwrap, unreachable!) is an automatic obligation of both engines in every unit of every property",
+                 "inputs shorter than a tag (0-3 bytes) are not covered by the header unit (CBMC budget)"],
+    uncovered=["file opening and byte-source reading, file meta group reading", "eager / lazy / collector data set readers (token machines)",
+               "DICOM JSON deserialisation", "PDU body decoding (per-type, after the framing head)", "pixel data decoders (JPEG, RLE on malformed fragments, deflate)",
+               "dump", "attribute selector, date-time and range text parsers", "hang-freedom (termination) in general"],
+)
